@@ -308,6 +308,9 @@ def persist_worker(version, args):
     try:
         base = bases.base_file(version, args.get("driver"))
         fixed = list(args.get("fixed") or [])
+        if args["rounds"]:
+            # directed: files that hold exactly ONE trigger (a one-element display-order array) and none at all
+            fixed += [["init 1 a0 0"], ["init 2 a1|d0 1,0", "remove i1"], ["init 1 - 0", "remove i0"]]
         for rnd in range(len(fixed) + args["rounds"]):
             with cc.quiet():
                 scn = AoE2DEScenario.from_file(base)
@@ -339,7 +342,13 @@ def persist_worker(version, args):
                 body = cmd[2:] if cmd.startswith("q ") else cmd
                 real.execute(body)
                 hist.append(body)
-            want = persisted_state(scn.trigger_manager, lib)
+            st_w, want = common.outcome(persisted_state, scn.trigger_manager, lib)
+            if st_w != "ok":
+                R.case(json.dumps(["persist", version, hist]), True, tags=("persisted",))
+                R.violation({"kind": "persisted-state-unreadable"},
+                            f"version {version}: after {hist} (file saved and re-loaded once) ids / display order / links of the manager cannot be read: {want}",
+                            {"version": version, "hist": hist})
+                continue
             f2 = os.path.join(tmp, f"b{rnd}.aoe2scenario")
             with cc.quiet():
                 st, err = common.outcome(lambda: scn.write_to_file(f2))
